@@ -264,12 +264,12 @@ DecUpdate(f, ld, e0, l1, l2, bg, transient, silence) ==
       bg |-> nbg, ld |-> 0]
 MaxBackgroundIncrease(ld, LM) == Min(160, ld + P2(LM)) * Milli
 
-\* celt_decode_lost
+\* celt_decode_lost: works on all CCd channels of the decoder object (C = st->channels), not on the stream's channel count
 NoiseBased(f, ld, skip) == ld >= 40 \/ f.start # 0 \/ skip # 0
-DecLost(f, ld, skip, e, bg) ==
+DecLost(f, CCd, ld, skip, e, bg) ==
   LET decay == IF ld = 0 THEN QOne + QHalf ELSE QHalf
   IN [e |-> IF NoiseBased(f, ld, skip)
-            THEN [j \in 1..(2 * NB) |-> IF InBand(f, j) /\ j <= f.C * NB THEN Max(bg[j], e[j] - decay) ELSE e[j]] ELSE e,
+            THEN [j \in 1..(2 * NB) |-> IF InBand(f, j) /\ j <= CCd * NB THEN Max(bg[j], e[j] - decay) ELSE e[j]] ELSE e,
       ld |-> Min(10000, ld + P2(f.LM))]
 
 \* encoder: arrays of CC*NB (oldBandE, oldLogE, oldLogE2, energyError)
